@@ -26,13 +26,14 @@ SPEC = {
              'Non-trivial = budget with a supplemental source, a tag-only rule that matches before a categorizing one, or a merchant: property; '
              'distinct by digest'),
     'exhaustive': {'quick': False, 'thorough': False},
-    'required_counters': ['cli_runs', 'explain_merchant_checks', 'discover_checks', 'description_probe_checks', 'legacy_csv_description_probes',
+    'required_counters': ['cli_runs', 'explain_merchant_checks', 'discover_checks', 'description_probe_checks', 'legacy_csv_description_probes', 'discover_text_header_checks',
                           'budgets_with_merchant_fed_by_several_rules'],
     'assumptions': ['description probes use rule files free of date / source / field conditions (explain cannot be given those)',
                     'discover totals are compared only when every Unknown transaction is positive (discover sums absolute values, up nets them)'],
 }
 
-PROBE_CONDS = ['contains("%s")', 'regex("%s")', 'not contains("%s")', '"%s" in description', 'is_probe', 'startswith("%s") or amount > 500',
+PROBE_CONDS = ['contains("%s")', 'regex("%s")', 'not contains("%s")', '"%s" in description', 'is_probe', 'startswith("%s") or amount > 500', 'is_large',
+               'contains("%s") and is_large',
                'contains("%s") and amount > 10', 'normalized("%s")', 'len(description) > 5 and contains("%s")', 'amount > 100', 'description == "%s STORE"']
 PROBE_WORDS = ['NETFLIX', 'UBER', 'COSTCO', 'PROBE', 'STORE', 'ZZZ']
 
@@ -55,7 +56,13 @@ def probe_rulefile(rnd):
             r.lets = [('k', 'amount * 2')]
             r.match = '(%s) and k > 20' % r.match
         rules.append(r)
-    rf = R.RuleFile(variables=[('is_probe', 'contains("PROBE")')], rules=rules)
+    # variables that need a date / a source / a custom field cannot be evaluated for a bare description (explain has none of these to offer); no rule
+    # uses them - but the variables around them, which only need description and amount, must still work
+    variables = [('is_probe', 'contains("PROBE")'), ('is_large', 'amount > 100')]
+    for extra in rnd.sample([('after_move', 'date >= "2025-06-01"'), ('from_amex', 'source == "Amex"'), ('has_memo', 'field.memo != ""'), ('q4', 'month >= 10')],
+                            rnd.randint(0, 3)):
+        variables.insert(rnd.randint(0, len(variables)), extra)
+    rf = R.RuleFile(variables=variables, rules=rules)
     if rnd.random() < .3:
         rf.transforms = [('field.description', rnd.choice(['regex_replace(field.description, "^SQ \\\\*", "")', 'uppercase(field.description)',
                                                             'strip_prefix(field.description, "APLPAY ")']))]
@@ -261,6 +268,48 @@ def judge_probe_csv(rec, rnd, tmp, k):
         shutil.rmtree(root, ignore_errors=True)
 
 
+def judge_discover_text(rec, rnd, tmp, k):
+    """discover's default (text) output on a budget with more distinct Unknown descriptions than its --limit: the header still states the
+    count and total of ALL transactions tally up leaves Unknown."""
+    import re
+    n = rnd.choice([3, 19, 20, 21, 26, 45])
+    rows, total = [], 0.0
+    for i in range(n):
+        for _ in range(rnd.choice([1, 1, 2])):
+            a = rnd.choice([5.0, 12.5, 99.99, 250.0, 0.5])
+            rows.append('2025-%02d-%02d,VENDOR NUMBER %d X,%.2f' % (rnd.randint(1, 12), rnd.randint(1, 28), i, a))
+            total += a
+    rows.append('2025-01-05,NETFLIX.COM,9.99')
+    root = os.path.join(tmp, 'dt%d' % k)
+    os.makedirs(os.path.join(root, 'config'))
+    os.makedirs(os.path.join(root, 'data'))
+    with open(os.path.join(root, 'config', 'settings.yaml'), 'w') as f:
+        f.write('year: 2025\nmerchants_file: config/merchants.rules\ndata_sources:\n  - name: Main\n    file: data/main.csv\n    format: "{date:%Y-%m-%d},{description},{amount}"\n')
+    with open(os.path.join(root, 'config', 'merchants.rules'), 'w') as f:
+        f.write('[Netflix]\nmatch: contains("NETFLIX")\ncategory: Subs\n')
+    with open(os.path.join(root, 'data', 'main.csv'), 'w') as f:
+        f.write('Date,Description,Amount\n' + '\n'.join(rows) + '\n')
+    lim = rnd.choice([None, None, 5, 0])
+    args = ['discover', os.path.join(root, 'config')] + (['--limit', str(lim)] if lim is not None else [])
+    p = B.tally(root, *args)
+    rec.count('cli_runs')
+    rec.case()
+    case = {'kind': 'discover-text', 'distinct_unknown': n, 'limit': lim}
+    m = re.search(r'Total unknown: (\d+) transactions, \$([\d.,]+)', p.stdout)
+    try:
+        if not m:
+            rec.violation('discover-text-header-missing', f'exit {p.returncode}: {p.stdout[:200]!r}', case)
+            return
+        rec.count('discover_text_header_checks')
+        got_n, got_t = int(m.group(1)), float(m.group(2).replace(',', ''))
+        if got_n != len(rows) - 1 or abs(got_t - total) > 0.011:
+            rec.violation('discover-text-total-differs', f'{n} distinct unknown descriptions, --limit {lim}: header says {got_n} transactions, ${got_t}; '
+                          f'tally up leaves {len(rows) - 1} transactions totalling {total:.2f} Unknown', case)
+        rec.interesting(['dt', n, lim])
+    finally:
+        shutil.rmtree(root, ignore_errors=True)
+
+
 def judge_probe(rec, rnd, tmp, k):
     rf = probe_rulefile(rnd)
     mode = rnd.choice(['first_match', 'first_match', 'most_specific'])
@@ -325,6 +374,7 @@ def run(rec, shard, nshards, t):
             for j in range(3):
                 judge_probe(rec, rnd, tmp, k * 10 + j)
             judge_probe_csv(rec, rnd, tmp, k)
+            judge_discover_text(rec, rnd, tmp, k)
         if shard == 0:
             rec.sample({'probe_rules': R.render(probe_rulefile(rnd))[:500]})
     finally:
@@ -341,5 +391,6 @@ def replay(rec, case):
             for j in range(3):
                 judge_probe(rec, rnd, tmp, k * 10 + j)
             judge_probe_csv(rec, rnd, tmp, k)
+            judge_discover_text(rec, rnd, tmp, k)
     finally:
         shutil.rmtree(tmp, ignore_errors=True)
